@@ -9,9 +9,25 @@
 //!  * correspondence: the reference-counting model (`Blue.FileRefs.step`: install_version /
 //!    explicit_ref / explicit_unref and the move to trash/) fed with the versions the store
 //!    installed predicts exactly which names are in sst/ and which have left it.
+//!
+//! Added: the offline verifier and the reopen-time orphan clean-up are *modelled*
+//! (`Blue.Verifier`, `Blue.Orphans`).  Before every real verifier pass and every real reopen the
+//! directory (names in sst/ and trash/, every manifest fragment with its edits, the verifier's own
+//! manifest) is dumped and handed to the model, which predicts the status of the pass, what it
+//! unlinks and the state of the verifier's manifest afterwards (`vfy pass`), respectively what
+//! `cleanup_orphans` renames and what the manifest lists (`orph`).  Traced passes run in a child
+//! under strace on a copy of the directory: the order of the unlinks and of the two edits of
+//! verify/MANIFEST is compared with the model's action list (`vfy trace`), the directory after
+//! every prefix of the traced system calls with the model's crash states (`vfy prefixes`), and
+//! every distinct crash image (completed calls persist / unsynced bytes lost) is restarted with
+//! the real verifier (compared with the model's pass from that state), then reopened with the
+//! real store and read back.  Directed images: the last trash moves undone (orphans), an
+//! interrupted rollover of the store manifest, a logged file not yet in trash/ (backoff), files
+//! removed and re-created under the same name within one edit, across edits and across fragments.
 use crate::common::*;
+use crate::fstrace::{self, FsOp, SimFs};
 use crate::store::*;
-use std::collections::BTreeSet;
+use std::collections::{BTreeMap, BTreeSet};
 
 fn tainted(v: Verdict, taint: &Option<String>) -> Verdict {
     match (v, taint) {
@@ -56,7 +72,132 @@ fn flush_incarnation(rec: &mut Recorder, inc: &Incarnation, taint: &Option<Strin
     rec.case(&req, &inc.observed.join(" | "), tainted(Verdict::Ok, taint), if inc.events.len() >= 3 { Some(fnv(req.as_bytes())) } else { None });
 }
 
-pub fn run_history(rec: &mut Recorder, seed: u64, hidx: u64, len: usize, nkeys: usize) {
+/// what a history is made of here: the store operations of C01 plus reopen with other options,
+/// traced verifier passes and the directed images
+#[derive(Clone, Debug)]
+pub enum XOp {
+    S(Op),
+    /// reopen with different options (e.g. another target file size: merges then splits re-create
+    /// files under the names of files removed earlier)
+    ReopenCfg(Cfg),
+    /// a verifier pass traced on a copy (action order, crash images), then the pass for real
+    TracedVerify,
+    /// on a copy: some of the trash moves of the last manifest edit undone, then reopen
+    OrphanImage,
+    /// on a copy: MANIFEST hard-linked to the next backup name (rollover died before its rename),
+    /// then a verifier pass, then reopen
+    RolloverImage,
+    /// on a copy: one logged file not yet in trash/ (still in sst/), verifier pass (backoff), the
+    /// file arrives, second pass, reopen
+    BackoffImage,
+}
+
+impl XOp {
+    fn render(&self) -> String {
+        match self {
+            XOp::S(o) => o.render(),
+            XOp::ReopenCfg(c) => format!("reopen[{}]", cfg_arg(c)),
+            XOp::TracedVerify => "verify-traced".into(),
+            XOp::OrphanImage => "orphan-image".into(),
+            XOp::RolloverImage => "rollover-image".into(),
+            XOp::BackoffImage => "backoff-image".into(),
+        }
+    }
+}
+
+fn find_file(dir: &str, short_name: &str) -> Option<String> {
+    list_dir(dir, "").into_iter().find(|n| sh(n) == short_name)
+}
+
+fn orphan_image(rec: &mut Recorder, tag: &str, sim: &Sim, keys: &[Vec<u8>], taint: &Option<String>, rng: &mut Rng) {
+    let img = scratch_dir(&format!("c08o.{}", fnv(tag.as_bytes())));
+    if copy_tree(&sim.root, &img).is_err() {
+        return;
+    }
+    let d = abs_dir(&img);
+    // the newest edit that removes something
+    let mut edits: Vec<&AEdit> = vec![];
+    for (_, es) in &d.frags {
+        edits.extend(es.iter().skip(1));
+    }
+    edits.extend(d.live.iter().skip(1));
+    let cands: Vec<String> = match edits.iter().rev().find(|e| !e.rm.is_empty()) {
+        Some(e) => e.rm.iter().filter(|x| !e.add.contains(x) && d.trash.contains(&format!("{}.sst", x)) && !d.sst.contains(x)).cloned().collect(),
+        None => vec![],
+    };
+    if cands.is_empty() {
+        rec.count("orphan_image.nothing_to_undo");
+        let _ = std::fs::remove_dir_all(&img);
+        return;
+    }
+    let mut moved = 0;
+    for (i, x) in cands.iter().enumerate() {
+        if i == 0 || rng.chance(1, 2) {
+            if let Some(full) = find_file(&format!("{}/trash", img), &format!("{}.sst", x)) {
+                if std::fs::rename(format!("{}/trash/{}", img, full), format!("{}/sst/{}", img, full)).is_ok() {
+                    moved += 1;
+                }
+            }
+        }
+    }
+    rec.count("orphan_image.images");
+    rec.add("orphan_image.trash_moves_undone", moved);
+    reopen_image(rec, tag, &img, &sim.cfg, keys, &sim.oracle, taint);
+}
+
+fn rollover_image(rec: &mut Recorder, tag: &str, sim: &Sim, keys: &[Vec<u8>], taint: &Option<String>, rng: &mut Rng) {
+    let img = scratch_dir(&format!("c08r.{}", fnv(tag.as_bytes())));
+    if copy_tree(&sim.root, &img).is_err() {
+        return;
+    }
+    let next = list_dir(&img, "mani").iter().filter_map(|n| mani::extract_backup(std::path::Path::new(n))).max().unwrap_or(0) + 1;
+    if std::fs::hard_link(format!("{}/mani/MANIFEST", img), format!("{}/mani/MANIFEST.{}", img, next)).is_err() {
+        let _ = std::fs::remove_dir_all(&img);
+        return;
+    }
+    if rng.chance(1, 2) {
+        // the temporary the rollover was writing: an unfinished edit
+        let _ = std::fs::write(format!("{}/mani/MANIFEST.tmp", img), b"0badc0de+deadbeef\n");
+    }
+    rec.count("rollover_image.images");
+    pass_on_image(rec, &format!("{} verify", tag), &img, &sim.cfg, taint);
+    reopen_image(rec, tag, &img, &sim.cfg, keys, &sim.oracle, taint);
+}
+
+fn backoff_image(rec: &mut Recorder, tag: &str, sim: &Sim, keys: &[Vec<u8>], taint: &Option<String>, rng: &mut Rng) {
+    let img = scratch_dir(&format!("c08b.{}", fnv(tag.as_bytes())));
+    if copy_tree(&sim.root, &img).is_err() {
+        return;
+    }
+    let d = abs_dir(&img);
+    let cands: Vec<String> = d.recorded(u64::MAX).into_iter().filter(|x| x.ends_with(".sst") && d.trash.contains(x) && !d.sst.contains(&x[..x.len() - 4].to_string())).collect();
+    if cands.is_empty() {
+        rec.count("backoff_image.nothing_logged");
+        let _ = std::fs::remove_dir_all(&img);
+        return;
+    }
+    let x = rng.pick(&cands).clone();
+    let Some(full) = find_file(&format!("{}/trash", img), &x) else {
+        let _ = std::fs::remove_dir_all(&img);
+        return;
+    };
+    let (t, s) = (format!("{}/trash/{}", img, full), format!("{}/sst/{}", img, full));
+    if std::fs::rename(&t, &s).is_err() {
+        let _ = std::fs::remove_dir_all(&img);
+        return;
+    }
+    rec.count("backoff_image.images");
+    let (_, _, st) = pass_on_image(rec, &format!("{} first pass", tag), &img, &sim.cfg, taint);
+    if st.starts_with("backoff") {
+        rec.count("backoff_image.backed_off");
+    }
+    // the file arrives in trash/
+    let _ = std::fs::rename(&s, &t);
+    pass_on_image(rec, &format!("{} second pass", tag), &img, &sim.cfg, taint);
+    reopen_image(rec, tag, &img, &sim.cfg, keys, &sim.oracle, taint);
+}
+
+pub fn run_history(rec: &mut Recorder, seed: u64, hidx: u64, len: usize, nkeys: usize, budget: &mut TraceBudget) {
     let mut rng = Rng::for_case(seed, 108, hidx);
     let cfg = Cfg::gen(&mut rng);
     let mode = hidx % 4 % 3;
@@ -67,12 +208,47 @@ pub fn run_history(rec: &mut Recorder, seed: u64, hidx: u64, len: usize, nkeys: 
         let at = rng.below(ops.len() as u64) as usize;
         ops.insert(at, Op::Verify);
     }
-    let root = scratch_dir(&format!("c08.{}", hidx));
-    rec.aux(&format!("history {} cfg {} ops {}", hidx, cfg.render(), ops.iter().map(|o| o.render()).collect::<Vec<_>>().join(" ")));
-    let mut sim = match Sim::open(&root, &cfg) {
+    let mut xops: Vec<XOp> = vec![];
+    for op in ops {
+        match op {
+            Op::Verify => {
+                match rng.below(10) {
+                    0 => xops.push(XOp::RolloverImage),
+                    1 | 2 => xops.push(XOp::BackoffImage),
+                    _ => {}
+                }
+                if rng.chance(1, 3) {
+                    xops.push(XOp::TracedVerify);
+                } else {
+                    xops.push(XOp::S(Op::Verify));
+                }
+                if rng.chance(1, 5) {
+                    // the verifier run twice in a row
+                    xops.push(XOp::S(Op::Verify));
+                }
+            }
+            Op::Reopen if rng.chance(1, 3) => {
+                // the same store under other options
+                // (the garbage-collection policy stays: the verifier re-runs every collection under
+                // the policy it is given, and rejects one made under a policy that kept less)
+                let mut c = Cfg::gen(&mut rng);
+                c.mani_ratio = cfg.mani_ratio;
+                c.gc_versions = cfg.gc_versions;
+                xops.push(XOp::ReopenCfg(c));
+            }
+            o => xops.push(XOp::S(o)),
+        }
+    }
+    run_ops(rec, &format!("h{}", hidx), &cfg, &xops, nkeys, &mut rng, budget);
+}
+
+pub fn run_ops(rec: &mut Recorder, hname: &str, cfg: &Cfg, xops: &[XOp], nkeys: usize, rng: &mut Rng, budget: &mut TraceBudget) {
+    let root = scratch_dir(&format!("c08.{}", hname));
+    rec.aux(&format!("history {} cfg {} ops {}", hname, cfg.render(), xops.iter().map(|o| o.render()).collect::<Vec<_>>().join(" ")));
+    let mut sim = match Sim::open(&root, cfg) {
         Ok(s) => s,
         Err(e) => {
-            rec.case(&format!("# history {} open", hidx), "#", Verdict::Fail { class: "open-error".into(), detail: e }, None);
+            rec.case(&format!("# history {} open", hname), "#", Verdict::Fail { class: "open-error".into(), detail: e }, None);
             return;
         }
     };
@@ -90,8 +266,36 @@ pub fn run_history(rec: &mut Recorder, seed: u64, hidx: u64, len: usize, nkeys: 
     };
     let mut prev_files = inc.v0.clone();
     let mut prev_levels: Vec<Vec<String>> = vec![];
-    'ops: for (step, op) in ops.iter().enumerate() {
-        let tag = format!("h{}s{}:{}", hidx, step, op.render());
+    'ops: for (step, xop) in xops.iter().enumerate() {
+        let tag = format!("{}s{}:{}", hname, step, xop.render());
+        let op: Op = match xop {
+            XOp::S(o) => o.clone(),
+            XOp::ReopenCfg(c) => {
+                sim.cfg = c.clone();
+                rec.count("reopens_with_other_options");
+                Op::Reopen
+            }
+            XOp::TracedVerify => {
+                if budget.passes > 0 {
+                    budget.passes -= 1;
+                    traced_pass(rec, &tag, &sim.root, &sim.cfg, &keys, &sim.oracle, &taint, budget.images_per_pass);
+                }
+                Op::Verify
+            }
+            XOp::OrphanImage => {
+                orphan_image(rec, &tag, &sim, &keys, &taint, rng);
+                continue;
+            }
+            XOp::RolloverImage => {
+                rollover_image(rec, &tag, &sim, &keys, &taint, rng);
+                continue;
+            }
+            XOp::BackoffImage => {
+                backoff_image(rec, &tag, &sim, &keys, &taint, rng);
+                continue;
+            }
+        };
+        let op = &op;
         if let Op::Reopen = op {
             if taint.is_none() {
                 if let Ok(d) = sim.dump() {
@@ -103,6 +307,7 @@ pub fn run_history(rec: &mut Recorder, seed: u64, hidx: u64, len: usize, nkeys: 
             }
         }
         let before = sim.listing();
+        let abs_before = if matches!(op, Op::Verify | Op::Reopen) { Some(abs_dir(&sim.root)) } else { None };
         let res = match guarded(std::panic::AssertUnwindSafe(|| sim.apply(op))) {
             Ok(r) => r,
             Err(p) => Err(format!("panic:{}", p)),
@@ -124,6 +329,28 @@ pub fn run_history(rec: &mut Recorder, seed: u64, hidx: u64, len: usize, nkeys: 
                 break;
             }
         };
+        // a compaction or flush that retired files: the crash image in which (some of) the moves to
+        // trash/ have not happened yet, reopened
+        if matches!(op, Op::Compact(_) | Op::Flush | Op::Put(..) | Op::Del(..) | Op::Batch(..)) {
+            let grew = after.get("trash").unwrap().iter().any(|n| n.ends_with(".sst") && !before.get("trash").unwrap().contains(n));
+            if grew && rng.chance(1, 3) {
+                orphan_image(rec, &format!("{} orphan-image", tag), &sim, &keys, &taint, rng);
+            }
+        }
+        // the verifier / the orphan clean-up against their models
+        if let Some(ab) = &abs_before {
+            let aa = abs_dir(&sim.root);
+            match op {
+                Op::Verify => emit_pass(rec, &tag, ab, &aa, &sim.last_verify, &taint),
+                _ => {
+                    let listed = sim.kvs().verif_tree().verif_manifest().0;
+                    emit_orph(rec, &tag, ab, &aa, &listed, &taint);
+                }
+            }
+        }
+        if std::env::var("BLUE_DEBUG").is_ok() {
+            eprintln!("{} -> levels {:?}", tag.chars().take(40).collect::<String>(), d.levels.iter().enumerate().filter(|(_, l)| !l.is_empty()).map(|(i, l)| (i, l.iter().map(|f| hex(&f.setsum)[..6].to_string()).collect::<Vec<_>>())).collect::<Vec<_>>());
+        }
         let files = version_files(&d);
         let sst_now = short(after.get("sst").unwrap());
         let mut bad = vec![];
@@ -200,11 +427,15 @@ pub fn run_history(rec: &mut Recorder, seed: u64, hidx: u64, len: usize, nkeys: 
                 taint = Some("reopen-with-key-and-timestamp-overlapping-files".to_string());
                 rec.count("histories_tainted_by_D9_trigger");
             }
+            let ab = abs_dir(&sim.root);
             let r = sim.apply(&Op::Reopen);
             let mut bad = vec![];
             match r {
                 Err(e) => bad.push(format!("reopen after verifier pass failed: {}", e)),
                 Ok(()) => {
+                    let aa = abs_dir(&sim.root);
+                    let listed = sim.kvs().verif_tree().verif_manifest().0;
+                    emit_orph(rec, &format!("{} reopen", tag), &ab, &aa, &listed, &taint);
                     for k in &keys {
                         let want = sim.oracle.get(k).cloned().flatten();
                         match sim.get(k) {
@@ -238,6 +469,21 @@ pub fn run_history(rec: &mut Recorder, seed: u64, hidx: u64, len: usize, nkeys: 
         }
     }
     flush_incarnation(rec, &inc, &taint);
+    // how often a file came back under the name of a removed one
+    for (_, evs) in sim.sst_events.iter() {
+        let mut removed_at: Option<u64> = None;
+        for (ord, c) in evs {
+            match c {
+                '-' => removed_at = Some(*ord),
+                _ => {
+                    if let Some(r) = removed_at {
+                        rec.count(if r == *ord { "same_name.removed_and_added_in_one_edit" } else { "same_name.re-added_by_a_later_edit" });
+                        removed_at = None;
+                    }
+                }
+            }
+        }
+    }
     rec.add("flushes", sim.flushes);
     rec.add("compactions", sim.compactions);
     rec.add("reopens", sim.reopens);
@@ -245,15 +491,934 @@ pub fn run_history(rec: &mut Recorder, seed: u64, hidx: u64, len: usize, nkeys: 
     sim.close();
 }
 
+/// directed histories: files that come back under the name of a removed file (within one edit,
+/// in a later edit, in a later fragment), a garbage collection that drops everything, the
+/// verifier run twice, on an interrupted rollover, with a logged file not yet in trash/
+fn directed(rec: &mut Recorder, seed: u64, budget: &mut TraceBudget) {
+    let big = |tag: u8, n: usize| -> Vec<u8> { std::iter::repeat(tag).take(n).collect() };
+    let put = |k: &[u8], v: Vec<u8>| XOp::S(Op::Put(k.to_vec(), v));
+    let del = |k: &[u8]| XOp::S(Op::Del(k.to_vec()));
+    let fl = || XOp::S(Op::Flush);
+    let co = || XOp::S(Op::Compact(1));
+    let re = || XOp::S(Op::Reopen);
+    let base = Cfg { memtable_bytes: 1 << 20, target_file: 1 << 22, min_file: 64, target_block: 256, l0_mandatory_files: 1, l0_stall_files: 12, max_compaction_files: 16, gc_versions: 3, mani_ratio: 1 };
+    for (i, mr) in [1u64, 2, 10].iter().enumerate() {
+        let wide = Cfg { mani_ratio: *mr, ..base.clone() };
+        let narrow = Cfg { target_file: 128, min_file: 64, ..wide.clone() };
+        let mut rng = Rng::for_case(seed, 208, i as u64);
+        // A file sinks one level per compaction step (trivial moves) until it sits on top of an
+        // overlapping file; merges start when the stack of files of one key reaches level 1.
+        // 1. versions of one key, one file each, stacked and then merged under a large target file
+        //    size; 2. under a small one every merge writes one file per version: outputs carry the
+        //    names of files removed by earlier edits (re-added by a later edit, in a later fragment:
+        //    every reopen rolls the manifest over) or reproduce inputs of the same compaction
+        //    (removed and added in one edit); 3. a garbage collection that drops everything it reads.
+        let images = || vec![XOp::OrphanImage, XOp::BackoffImage, XOp::RolloverImage, XOp::TracedVerify, XOp::S(Op::Verify)];
+        let mut ops = vec![];
+        for v in 0..5u8 {
+            ops.extend(vec![put(b"a", big(b'A' + v, 150)), fl()]);
+            ops.extend((0..18).map(|_| co()));
+        }
+        ops.extend(images());
+        ops.push(XOp::ReopenCfg(narrow.clone()));
+        for v in 0..2u8 {
+            ops.extend(vec![put(b"a", big(b'a' + v, 150)), fl()]);
+            ops.extend((0..120).map(|_| co()));
+            ops.extend(images());
+        }
+        ops.push(re());
+        ops.extend(vec![XOp::ReopenCfg(Cfg { gc_versions: 1, ..wide.clone() }), del(b"a"), fl()]);
+        ops.extend((0..130).map(|_| co()));
+        ops.extend(images());
+        ops.extend(vec![re(), XOp::TracedVerify, re()]);
+        let saved = budget.passes;
+        budget.passes = usize::MAX;
+        run_ops(rec, &format!("d{}", i), &wide, &ops, 12, &mut rng, budget);
+        budget.passes = saved;
+    }
+}
+
+// ------------------------------------------------------------------------------------------------
+// the directory as the verifier / orphan models see it
+// ------------------------------------------------------------------------------------------------
+
+const D9: &str = "reopen-with-key-and-timestamp-overlapping-files";
+
+#[derive(Clone, Debug, Default, PartialEq)]
+pub struct AEdit {
+    rm: Vec<String>,
+    add: Vec<String>,
+    info: Vec<(char, String)>,
+}
+
+#[derive(Clone, Debug, Default)]
+pub struct AbsDir {
+    sst: Vec<String>,
+    trash: Vec<String>,
+    frags: Vec<(u64, Vec<AEdit>)>,
+    live: Vec<AEdit>,
+    vstrs: Vec<String>,
+    vm: Option<u64>,
+    vo: String,
+    /// a fragment or the verifier's manifest could not be read to the end
+    unreadable: bool,
+}
+
+/// 64 hex digits -> the first 12 (digests, also as the stem of `<digest>.sst`)
+fn sh(n: &str) -> String {
+    let (stem, ext) = match n.strip_suffix(".sst") {
+        Some(s) => (s, ".sst"),
+        None => (n, ""),
+    };
+    if stem.len() == 64 && stem.bytes().all(|b| b.is_ascii_hexdigit()) {
+        format!("{}{}", &stem[..12], ext)
+    } else {
+        n.to_string()
+    }
+}
+
+fn read_edits(path: &std::path::Path, keys: &[char]) -> Result<Vec<AEdit>, String> {
+    let it = mani::ManifestIterator::open(path).map_err(|e| format!("{:?}", e))?;
+    let mut out = vec![];
+    for ed in it {
+        let ed = ed.map_err(|e| format!("{:?}", e))?;
+        let mut a = AEdit { rm: ed.rmed().map(|x| sh(x)).collect(), add: ed.added().map(|x| sh(x)).collect(), info: vec![] };
+        for k in keys {
+            if let Some(v) = ed.get_info(*k) {
+                a.info.push((*k, sh(v)));
+            }
+        }
+        out.push(a);
+    }
+    Ok(out)
+}
+
+fn list_dir(root: &str, sub: &str) -> Vec<String> {
+    let mut v: Vec<String> = std::fs::read_dir(format!("{}/{}", root, sub)).map(|rd| rd.flatten().map(|e| e.file_name().to_string_lossy().to_string()).collect()).unwrap_or_default();
+    v.sort();
+    v
+}
+
+pub fn abs_dir(root: &str) -> AbsDir {
+    let mut d = AbsDir::default();
+    d.sst = list_dir(root, "sst").iter().filter_map(|n| n.strip_suffix(".sst").map(|x| sh(x))).collect();
+    d.trash = list_dir(root, "trash").iter().map(|n| sh(n)).collect();
+    let mut nums: Vec<u64> = list_dir(root, "mani").iter().filter_map(|n| mani::extract_backup(std::path::Path::new(n))).collect();
+    nums.sort();
+    for n in nums {
+        match read_edits(&std::path::PathBuf::from(format!("{}/mani/MANIFEST.{}", root, n)), &['I', 'O', 'D', 'L']) {
+            Ok(es) => d.frags.push((n, es)),
+            Err(_) => {
+                d.unreadable = true;
+                d.frags.push((n, vec![]));
+            }
+        }
+    }
+    match read_edits(&std::path::PathBuf::from(format!("{}/mani/MANIFEST", root)), &['I', 'O', 'D', 'L']) {
+        Ok(es) => d.live = es,
+        Err(_) => d.unreadable = true,
+    }
+    // the verifier's own manifest, replayed
+    d.vo = "000000000000".to_string();
+    match read_edits(&std::path::PathBuf::from(format!("{}/verify/MANIFEST", root)), &['M', 'O']) {
+        Ok(es) => {
+            let mut strs: BTreeSet<String> = BTreeSet::new();
+            for e in es {
+                for r in &e.rm {
+                    strs.remove(r);
+                }
+                for a in &e.add {
+                    strs.insert(a.clone());
+                }
+                for (k, v) in &e.info {
+                    if *k == 'M' {
+                        d.vm = mani::extract_backup(std::path::Path::new(v));
+                    } else if *k == 'O' {
+                        d.vo = v.clone();
+                    }
+                }
+            }
+            d.vstrs = strs.into_iter().collect();
+        }
+        Err(_) => d.unreadable = true,
+    }
+    d
+}
+
+fn render_edit(e: &AEdit) -> String {
+    let mut items: Vec<String> = vec![];
+    items.extend(e.rm.iter().map(|x| format!("-{}", x)));
+    items.extend(e.add.iter().map(|x| format!("+{}", x)));
+    items.extend(e.info.iter().map(|(k, v)| format!("{}{}", k, v)));
+    if items.is_empty() {
+        ".".into()
+    } else {
+        items.join(",")
+    }
+}
+
+fn render_edits(es: &[AEdit]) -> String {
+    if es.is_empty() {
+        "-".into()
+    } else {
+        es.iter().map(render_edit).collect::<Vec<_>>().join(";")
+    }
+}
+
+fn sorted_plus<'a>(it: impl Iterator<Item = &'a String>) -> String {
+    let s: BTreeSet<&String> = it.collect();
+    if s.is_empty() {
+        "-".into()
+    } else {
+        s.into_iter().cloned().collect::<Vec<_>>().join("+")
+    }
+}
+
+fn nums_plus(v: &[u64]) -> String {
+    if v.is_empty() {
+        "-".into()
+    } else {
+        v.iter().map(|n| n.to_string()).collect::<Vec<_>>().join("+")
+    }
+}
+
+impl AbsDir {
+    /// the `<directory>` of a `vfy` request
+    pub fn request(&self) -> String {
+        let frags = if self.frags.is_empty() { "-".to_string() } else { self.frags.iter().map(|(n, es)| format!("{}:{}", n, render_edits(es))).collect::<Vec<_>>().join("|") };
+        format!(
+            "sst={} trash={} vM={} vO={} vstrs={} frags={} live={}",
+            sorted_plus(self.sst.iter()),
+            sorted_plus(self.trash.iter()),
+            self.vm.map(|n| n.to_string()).unwrap_or_else(|| "-".into()),
+            self.vo,
+            sorted_plus(self.vstrs.iter()),
+            frags,
+            render_edits(&self.live)
+        )
+    }
+    fn render_v(&self) -> String {
+        format!("vM={} vO={} vstrs={}", self.vm.map(|n| n.to_string()).unwrap_or_else(|| "-".into()), self.vo, sorted_plus(self.vstrs.iter()))
+    }
+    /// as the model's `renderState`
+    pub fn state(&self) -> String {
+        format!("sst={} trash={} frags={} {}", sorted_plus(self.sst.iter()), sorted_plus(self.trash.iter()), nums_plus(&self.frags.iter().map(|f| f.0).collect::<Vec<_>>()), self.render_v())
+    }
+    /// the names the manifest state lists: the replay of MANIFEST
+    pub fn listed(&self) -> BTreeSet<String> {
+        let mut s = BTreeSet::new();
+        for e in &self.live {
+            for r in &e.rm {
+                s.remove(r);
+            }
+            for a in &e.add {
+                s.insert(a.clone());
+            }
+        }
+        s
+    }
+    /// every trash basename a fragment numbered <= `upto` (the newest excluded) records as removed
+    fn recorded(&self, upto: u64) -> BTreeSet<String> {
+        let mut s = BTreeSet::new();
+        let top = self.frags.last().map(|f| f.0);
+        for (n, es) in &self.frags {
+            if Some(*n) == top || *n > upto {
+                continue;
+            }
+            for (i, e) in es.iter().enumerate() {
+                for r in &e.rm {
+                    if !e.add.contains(r) {
+                        s.insert(format!("{}.sst", r));
+                    }
+                }
+                if i > 0 {
+                    for (k, v) in &e.info {
+                        if *k == 'L' {
+                            s.insert(format!("log.{}", v));
+                        }
+                    }
+                }
+            }
+        }
+        s
+    }
+}
+
+fn status_token(last_verify: &str) -> String {
+    if last_verify == "ok" {
+        "ok".into()
+    } else if let Some(p) = last_verify.strip_prefix("backoff:") {
+        format!("backoff:{}", sh(p))
+    } else if last_verify.starts_with("panic") {
+        "panic".into()
+    } else {
+        "corrupt".into()
+    }
+}
+
+/// what one pass did, rendered as the model's `vfy pass` answer
+fn observed_pass(before: &AbsDir, after: &AbsDir, status: &str) -> String {
+    let a_trash: BTreeSet<&String> = after.trash.iter().collect();
+    let gone_t: Vec<String> = before.trash.iter().filter(|x| !a_trash.contains(x)).cloned().collect();
+    let a_frags: BTreeSet<u64> = after.frags.iter().map(|f| f.0).collect();
+    let gone_f: Vec<u64> = before.frags.iter().map(|f| f.0).filter(|n| !a_frags.contains(n)).collect();
+    let mut s0 = before.sst.clone();
+    let mut s1 = after.sst.clone();
+    s0.sort();
+    s1.sort();
+    format!("st={} sst={} trash-={} frags-={} {}", status, if s0 == s1 { "same" } else { "changed" }, sorted_plus(gone_t.iter()), nums_plus(&gone_f), after.render_v())
+}
+
+/// The verifier's protocol read off two directory states (before a pass / after it, or before a
+/// pass / at a crash point inside it), with no reference to the model: it leaves sst/, MANIFEST and
+/// the newest fragment alone, puts nothing anywhere, and whatever left trash/ or mani/ is covered
+/// by an intent that is durable in verify/ (or was pending before) and by a fragment that recorded
+/// the removal.
+fn protocol_complaints(pre: &AbsDir, post: &AbsDir) -> Vec<String> {
+    let mut bad = vec![];
+    let set = |v: &Vec<String>| -> BTreeSet<String> { v.iter().cloned().collect() };
+    if set(&pre.sst) != set(&post.sst) {
+        bad.push(format!("sst/ changed: {:?} -> {:?}", pre.sst, post.sst));
+    }
+    if pre.live != post.live {
+        bad.push("MANIFEST changed".to_string());
+    }
+    for x in set(&post.trash).difference(&set(&pre.trash)) {
+        bad.push(format!("{} appeared in trash/", x));
+    }
+    let post_frags: BTreeSet<u64> = post.frags.iter().map(|f| f.0).collect();
+    let top = pre.frags.last().map(|f| f.0);
+    for (n, _) in &pre.frags {
+        if !post_frags.contains(n) {
+            if Some(*n) == top {
+                bad.push(format!("the newest fragment MANIFEST.{} was unlinked", n));
+            }
+            if !(post.vm.map(|m| m >= *n).unwrap_or(false)) {
+                bad.push(format!("MANIFEST.{} was unlinked but verify/ records M={:?}", n, post.vm));
+            }
+        }
+    }
+    for n in post_frags.iter() {
+        if !pre.frags.iter().any(|f| f.0 == *n) {
+            bad.push(format!("MANIFEST.{} appeared", n));
+        }
+    }
+    let pending: BTreeSet<String> = set(&pre.vstrs);
+    let recorded = pre.recorded(post.vm.unwrap_or(0));
+    for x in set(&pre.trash).difference(&set(&post.trash)) {
+        if !pending.contains(x) && !recorded.contains(x) {
+            bad.push(format!("trash/{} was unlinked, but no fragment up to M={:?} records its removal and it was not logged before", x, post.vm));
+        }
+    }
+    // what the crash-safety theorem assumes of a directory: no `M`, nothing logged
+    if post.vm.is_none() && !post.vstrs.is_empty() {
+        bad.push(format!("verify/ logs {:?} without an M", post.vstrs));
+    }
+    let post_sst = set(&post.sst);
+    for x in post.listed() {
+        if !post_sst.contains(&x) && set(&pre.sst).contains(&x) {
+            bad.push(format!("listed file {} left sst/", x));
+        }
+    }
+    bad
+}
+
+fn parse_cfg(s: &str) -> Cfg {
+    let mut m = BTreeMap::new();
+    for t in s.split(',') {
+        if let Some((k, v)) = t.split_once('=') {
+            m.insert(k.to_string(), v.parse::<u64>().unwrap_or(0));
+        }
+    }
+    Cfg { memtable_bytes: m["mem"], target_file: m["tf"], min_file: m["mf"], target_block: m["tb"], l0_mandatory_files: m["l0m"], l0_stall_files: m["l0s"], max_compaction_files: m["mcf"], gc_versions: m["gc"], mani_ratio: m["mr"] }
+}
+
+fn cfg_arg(c: &Cfg) -> String {
+    c.render().replace(' ', ",")
+}
+
+/// one verifier pass on `root` in this process: "ok" | "backoff:<name>" | "error:…" | "panic:…"
+fn real_pass(root: &str, cfg: &Cfg) -> String {
+    let opts = cfg.options(root);
+    let r = guarded(std::panic::AssertUnwindSafe(|| match lsmtk::LsmVerifier::open(opts) {
+        Ok(mut v) => v.verify(),
+        Err(e) => Err(e),
+    }));
+    match r {
+        Ok(Ok(())) => "ok".to_string(),
+        Ok(Err(e)) => match lsmtk::backoff_path(&e) {
+            Some(p) => format!("backoff:{}", p),
+            None => format!("error:{}", format!("{:?}", e).replace(char::is_whitespace, "_").chars().take(200).collect::<String>()),
+        },
+        Err(p) => format!("panic:{}", p),
+    }
+}
+
+/// child process of a traced pass: one `LsmVerifier::verify` on `root`, status on stdout
+pub fn child_run(rest: &[String]) -> ! {
+    let cfg = parse_cfg(&rest[1]);
+    println!("{}", real_pass(&rest[0], &cfg));
+    std::process::exit(0);
+}
+
+/// copy a directory tree, keeping hard links between files of the tree
+fn copy_tree(from: &str, to: &str) -> std::io::Result<()> {
+    use std::os::unix::fs::MetadataExt;
+    let _ = std::fs::remove_dir_all(to);
+    let mut seen: BTreeMap<(u64, u64), std::path::PathBuf> = BTreeMap::new();
+    fn walk(from: &std::path::Path, to: &std::path::Path, seen: &mut BTreeMap<(u64, u64), std::path::PathBuf>) -> std::io::Result<()> {
+        std::fs::create_dir_all(to)?;
+        let mut ents: Vec<_> = std::fs::read_dir(from)?.flatten().collect();
+        ents.sort_by_key(|e| e.file_name());
+        for e in ents {
+            let md = e.metadata()?;
+            let dst = to.join(e.file_name());
+            if md.is_dir() {
+                walk(&e.path(), &dst, seen)?;
+            } else {
+                let key = (md.dev(), md.ino());
+                if md.nlink() > 1 {
+                    if let Some(first) = seen.get(&key) {
+                        std::fs::hard_link(first, &dst)?;
+                        continue;
+                    }
+                    seen.insert(key, dst.clone());
+                }
+                std::fs::copy(e.path(), &dst)?;
+            }
+        }
+        Ok(())
+    }
+    walk(std::path::Path::new(from), std::path::Path::new(to), &mut seen)
+}
+
+/// a directory tree as a simulated file system whose every byte is durable
+fn simfs_of(root: &str) -> std::io::Result<SimFs> {
+    use std::os::unix::fs::MetadataExt;
+    let mut fs = SimFs::default();
+    let mut seen: BTreeMap<(u64, u64), usize> = BTreeMap::new();
+    fn walk(root: &std::path::Path, rel: &str, fs: &mut SimFs, seen: &mut BTreeMap<(u64, u64), usize>) -> std::io::Result<()> {
+        let here = if rel.is_empty() { root.to_path_buf() } else { root.join(rel) };
+        let mut ents: Vec<_> = std::fs::read_dir(&here)?.flatten().collect();
+        ents.sort_by_key(|e| e.file_name());
+        for e in ents {
+            let name = e.file_name().to_string_lossy().to_string();
+            let r = if rel.is_empty() { name.clone() } else { format!("{}/{}", rel, name) };
+            let md = e.metadata()?;
+            if md.is_dir() {
+                fs.dirs.insert(r.clone());
+                walk(root, &r, fs, seen)?;
+            } else {
+                let key = (md.dev(), md.ino());
+                let idx = match seen.get(&key) {
+                    Some(i) if md.nlink() > 1 => *i,
+                    _ => {
+                        let b = std::fs::read(e.path())?;
+                        fs.inodes.push(fstrace::Inode { data: b.clone(), durable: Some(b) });
+                        seen.insert(key, fs.inodes.len() - 1);
+                        fs.inodes.len() - 1
+                    }
+                };
+                fs.files.insert(r, idx);
+            }
+        }
+        Ok(())
+    }
+    walk(std::path::Path::new(root), "", &mut fs, &mut seen)?;
+    Ok(fs)
+}
+
+fn image_hash(fs: &SimFs, model_b: bool) -> u64 {
+    let mut hsh: u64 = 0xcbf29ce484222325;
+    for (path, &i) in &fs.files {
+        hsh = hsh.wrapping_mul(0x100000001b3) ^ fnv(path.as_bytes());
+        let ino = &fs.inodes[i];
+        let c: &[u8] = if model_b { ino.durable.as_deref().unwrap_or(&[]) } else { &ino.data };
+        hsh = hsh.wrapping_mul(0x100000001b3) ^ fnv(c);
+        hsh = hsh.wrapping_mul(0x100000001b3) ^ (i as u64);
+    }
+    for d in &fs.dirs {
+        hsh = hsh.wrapping_mul(0x100000001b3) ^ fnv(d.as_bytes());
+    }
+    hsh
+}
+
+/// the durable actions of a traced pass, in the model's rendering: `F<n>` unlink of a fragment,
+/// `T<name>` unlink in trash/, and per synced edit of verify/MANIFEST `I<n>:<names>` (it adds
+/// names) or `C` (it does not)
+fn canonical_acts(ops: &[FsOp]) -> Vec<String> {
+    let mut out = vec![];
+    let mut buf: Vec<u8> = vec![];
+    for op in ops {
+        match op {
+            FsOp::Unlink { path } => {
+                if let Some(n) = path.strip_prefix("mani/MANIFEST.") {
+                    if n.chars().all(|c| c.is_ascii_digit()) {
+                        out.push(format!("F{}", n));
+                    } else {
+                        out.push(format!("U{}", path));
+                    }
+                } else if let Some(x) = path.strip_prefix("trash/") {
+                    out.push(format!("T{}", sh(x)));
+                } else if !path.starts_with("verify/") {
+                    out.push(format!("U{}", path));
+                }
+            }
+            FsOp::Rename { from, to } => {
+                if !from.starts_with("verify/") {
+                    out.push(format!("R{}>{}", from, to));
+                }
+            }
+            FsOp::Link { from, to } => {
+                if !from.starts_with("verify/") {
+                    out.push(format!("L{}>{}", from, to));
+                }
+            }
+            FsOp::Create { path, .. } | FsOp::Truncate { path } => {
+                if !path.starts_with("verify/") {
+                    out.push(format!("W{}", path));
+                }
+            }
+            FsOp::Write { path, data, .. } => {
+                if path == "verify/MANIFEST" {
+                    buf.extend_from_slice(data);
+                } else if !path.starts_with("verify/") {
+                    out.push(format!("W{}", path));
+                }
+            }
+            FsOp::Sync { path } => {
+                if path == "verify/MANIFEST" && !buf.is_empty() {
+                    let text = String::from_utf8_lossy(&buf).to_string();
+                    let mut adds: Vec<String> = vec![];
+                    let mut m: Option<u64> = None;
+                    for l in text.lines() {
+                        if l.len() > 9 {
+                            let (act, val) = (&l[8..9], &l[9..]);
+                            if act == "+" {
+                                adds.push(sh(val));
+                            } else if act == "M" {
+                                m = mani::extract_backup(std::path::Path::new(val));
+                            }
+                        }
+                    }
+                    if m.is_some() || !adds.is_empty() {
+                        out.push(format!("I{}:{}", m.map(|x| x.to_string()).unwrap_or_else(|| "?".into()), sorted_plus(adds.iter())));
+                    } else {
+                        out.push("C".to_string());
+                    }
+                    buf.clear();
+                }
+            }
+            _ => {}
+        }
+    }
+    out
+}
+
+// ------------------------------------------------------------------------------------------------
+// checks built on the abstraction
+// ------------------------------------------------------------------------------------------------
+
+fn fail_class(taint: &Option<String>, class: &str) -> String {
+    taint.clone().unwrap_or_else(|| class.to_string())
+}
+
+/// one real verifier pass against the model's `vfy pass`, plus the protocol oracle
+fn emit_pass(rec: &mut Recorder, tag: &str, before: &AbsDir, after: &AbsDir, last_verify: &str, taint: &Option<String>) {
+    if before.unreadable || after.unreadable {
+        rec.count("vfy.pass.skipped_unreadable_fragment");
+        return;
+    }
+    let st = status_token(last_verify);
+    let bad = protocol_complaints(before, after);
+    let mut bad2 = bad.clone();
+    if st == "panic" {
+        bad2.push(format!("verifier panicked: {}", last_verify));
+    }
+    let v = if bad2.is_empty() { Verdict::Ok } else { Verdict::Fail { class: fail_class(taint, "verifier-removed-unlogged-or-needed-file"), detail: format!("{} {}", tag, bad2.join("; ")) } };
+    rec.count(&format!("vfy.pass.{}", st.split(':').next().unwrap_or("")));
+    let req = format!("vfy pass {}", before.request());
+    let nontrivial = if after.frags.len() < before.frags.len() || st.starts_with("backoff") || !before.vstrs.is_empty() { Some(fnv(req.as_bytes())) } else { None };
+    rec.case(&req, &observed_pass(before, after, &st), tainted(v, taint), nontrivial);
+}
+
+/// one real reopen against the model's `orph`, plus the oracle: nothing listed leaves sst/
+fn emit_orph(rec: &mut Recorder, tag: &str, before: &AbsDir, after: &AbsDir, listed_real: &[String], taint: &Option<String>) {
+    if after.unreadable {
+        rec.count("orph.skipped_unreadable_fragment");
+        return;
+    }
+    let b_sst: BTreeSet<String> = before.sst.iter().cloned().collect();
+    let a_sst: BTreeSet<String> = after.sst.iter().cloned().collect();
+    let a_trash: BTreeSet<String> = after.trash.iter().cloned().collect();
+    let left: Vec<String> = b_sst.difference(&a_sst).cloned().collect();
+    let moved: Vec<String> = left.iter().filter(|x| a_trash.contains(&format!("{}.sst", x))).cloned().collect();
+    let listed: BTreeSet<String> = listed_real.iter().map(|x| sh(x)).collect();
+    let mut bad = vec![];
+    for x in &left {
+        if listed.contains(x) {
+            bad.push(format!("listed file {} left sst/ during the reopen", x));
+        }
+        if !moved.contains(x) {
+            bad.push(format!("{} left sst/ and is not in trash/", x));
+        }
+    }
+    for x in &listed {
+        if !a_sst.contains(x) {
+            bad.push(format!("listed file {} is not in sst/ after the reopen", x));
+        }
+    }
+    let all_sst: BTreeSet<String> = b_sst.union(&a_sst).cloned().collect();
+    let mut frs: Vec<String> = after.frags.iter().map(|(_, es)| render_edits(es)).collect();
+    frs.push(render_edits(&after.live));
+    let req = format!("orph sst={} trash={} frags={}", sorted_plus(all_sst.iter()), sorted_plus(before.trash.iter()), frs.join("|"));
+    let obs = format!("moved={} listed={}", sorted_plus(moved.iter()), sorted_plus(listed.iter()));
+    rec.count("orph.reopens");
+    rec.add("orph.moved", moved.len() as u64);
+    let v = if bad.is_empty() { Verdict::Ok } else { Verdict::Fail { class: fail_class(taint, "cleanup-removed-listed-file"), detail: format!("{} {}", tag, bad.join("; ")) } };
+    rec.case(&req, &obs, tainted(v, taint), if !moved.is_empty() { Some(fnv(req.as_bytes())) } else { None });
+}
+
+/// open the real store on `root` (an image), compare the clean-up with the model, read everything
+/// back; the image is removed afterwards
+fn reopen_image(rec: &mut Recorder, tag: &str, root: &str, cfg: &Cfg, keys: &[Vec<u8>], expect: &BTreeMap<Vec<u8>, Option<Vec<u8>>>, taint: &Option<String>) {
+    let before = abs_dir(root);
+    let r = guarded(std::panic::AssertUnwindSafe(|| Sim::open(root, cfg)));
+    let mut taint = taint.clone();
+    let mut bad = vec![];
+    match r {
+        Err(p) => bad.push(format!("reopen panicked: {}", p)),
+        Ok(Err(e)) => bad.push(format!("reopen failed: {}", e)),
+        Ok(Ok(sim)) => {
+            match sim.dump() {
+                Ok(d) => {
+                    if taint.is_none() && crate::c01::d9_trigger(&d) {
+                        taint = Some(D9.to_string());
+                        rec.count("images_tainted_by_D9_trigger");
+                    }
+                }
+                Err(e) => bad.push(format!("a file of the reopened version cannot be read: {}", e)),
+            }
+            let after = abs_dir(root);
+            let listed = sim.kvs().verif_tree().verif_manifest().0;
+            emit_orph(rec, tag, &before, &after, &listed, &taint);
+            for k in keys {
+                let want = expect.get(k).cloned().flatten();
+                match sim.get(k) {
+                    Ok(got) if got == want => {}
+                    Ok(got) => bad.push(format!("key {} reads {:?} want {:?}", hex(k), got.map(|v| hex(&v)), want.map(|v| hex(&v)))),
+                    Err(e) => bad.push(format!("key {} load error {}", hex(k), e)),
+                }
+            }
+            let live: Vec<(Vec<u8>, Vec<u8>)> = expect.iter().filter_map(|(k, v)| v.as_ref().map(|v| (k.clone(), v.clone()))).collect();
+            match sim.scan_all() {
+                Ok(s) if s == live => {}
+                Ok(s) => bad.push(format!("full scan shows {} entries, want {}", s.len(), live.len())),
+                Err(e) => bad.push(format!("scan error {}", e)),
+            }
+            sim.close();
+        }
+    }
+    rec.count("images.reopened_and_read_back");
+    let v = if bad.is_empty() { Verdict::Ok } else { Verdict::Fail { class: fail_class(&taint, "contents-changed-after-verifier-pass"), detail: format!("{} {}", tag, bad.iter().take(4).cloned().collect::<Vec<_>>().join("; ")) } };
+    rec.case(&format!("# {} reopen+readback", tag), "#", tainted(v, &taint), Some(fnv(tag.as_bytes())));
+    let _ = std::fs::remove_dir_all(root);
+}
+
+/// a verifier pass on an image in this process, compared with the model; returns the states
+fn pass_on_image(rec: &mut Recorder, tag: &str, root: &str, cfg: &Cfg, taint: &Option<String>) -> (AbsDir, AbsDir, String) {
+    let before = abs_dir(root);
+    let st = real_pass(root, cfg);
+    let after = abs_dir(root);
+    emit_pass(rec, tag, &before, &after, &st, taint);
+    (before, after, st)
+}
+
+pub struct TraceBudget {
+    pub passes: usize,
+    pub images_per_pass: usize,
+}
+
+/// One verifier pass on a copy of `root`, in a child under strace; the order of its durable
+/// actions, the directory after every prefix of its system calls, and every distinct crash image
+/// restarted, reopened and read back.
+fn traced_pass(rec: &mut Recorder, tag: &str, root: &str, cfg: &Cfg, keys: &[Vec<u8>], expect: &BTreeMap<Vec<u8>, Option<Vec<u8>>>, taint: &Option<String>, max_images: usize) {
+    let work = scratch_dir(&format!("c08t.{}", fnv(tag.as_bytes())));
+    let _ = std::fs::create_dir_all(&work);
+    let pre = format!("{}/pre", work);
+    let runr = format!("{}/run", work);
+    let img = format!("{}/img", work);
+    let cleanup = |w: &str| {
+        let _ = std::fs::remove_dir_all(w);
+    };
+    if copy_tree(root, &pre).is_err() || copy_tree(&pre, &runr).is_err() {
+        rec.count("traced.copy_failed");
+        cleanup(&work);
+        return;
+    }
+    let d0 = abs_dir(&pre);
+    if d0.unreadable {
+        rec.count("traced.skipped_unreadable_fragment");
+        cleanup(&work);
+        return;
+    }
+    let trace = format!("{}/trace", work);
+    let exe = std::env::current_exe().unwrap();
+    let out = std::process::Command::new("strace")
+        .args(["-f", "-o", &trace, "-s", "4000000", "-xx", "-y", "-e", "trace=openat,open,creat,write,pwrite64,fsync,fdatasync,link,linkat,rename,renameat,renameat2,unlink,unlinkat,mkdir,mkdirat,rmdir"])
+        .arg(&exe)
+        .args(["C08child", &runr, &cfg_arg(cfg)])
+        .stderr(std::process::Stdio::null())
+        .output();
+    let (okrun, status) = match out {
+        Ok(o) => (o.status.success(), String::from_utf8_lossy(&o.stdout).trim().to_string()),
+        Err(e) => (false, format!("spawn:{}", e)),
+    };
+    let text = std::fs::read_to_string(&trace).unwrap_or_default();
+    if !okrun || text.is_empty() {
+        rec.case(&format!("# {} traced run", tag), "#", Verdict::Fail { class: "machinery".into(), detail: format!("{} traced child failed: {}", tag, status) }, None);
+        cleanup(&work);
+        return;
+    }
+    let ops = fstrace::parse(&text, &runr, "/nonexistent-marker");
+    // ---- order of the durable actions
+    let acts = canonical_acts(&ops);
+    let req = format!("vfy trace {}", d0.request());
+    rec.count("traced.passes");
+    rec.add("traced.actions", acts.len() as u64);
+    rec.corr(&req, &format!("st={} acts={}", status_token(&status), if acts.is_empty() { "-".to_string() } else { acts.join(",") }), if acts.len() >= 3 { Some(fnv(req.as_bytes())) } else { None });
+    // the traced run as a whole is a pass, too
+    let dend = abs_dir(&runr);
+    emit_pass(rec, &format!("{} (traced)", tag), &d0, &dend, &status, taint);
+    // ---- crash points
+    let mutating: Vec<usize> = ops.iter().enumerate().filter(|(_, o)| o.mutating()).map(|(i, _)| i).collect();
+    let mut fs = match simfs_of(&pre) {
+        Ok(f) => f,
+        Err(_) => {
+            cleanup(&work);
+            return;
+        }
+    };
+    let mut applied = 0usize;
+    let mut seen: BTreeSet<(bool, u64)> = BTreeSet::new();
+    let mut states_a: Vec<String> = vec![];
+    let mut capped = false;
+    let mut n_images = 0usize;
+    for p in 0..=mutating.len() {
+        let upto = if p < mutating.len() { mutating[p] } else { ops.len() };
+        while applied < upto {
+            fs.apply(&ops[applied]);
+            applied += 1;
+        }
+        let next_call = if p < mutating.len() { format!("{:?}", ops[mutating[p]]).chars().take(70).collect::<String>() } else { "end".to_string() };
+        for model_b in [false, true] {
+            let h = image_hash(&fs, model_b);
+            if !seen.insert((model_b, h)) {
+                rec.count("traced.crash_points_with_image_already_explored");
+                continue;
+            }
+            if n_images >= max_images {
+                capped = true;
+                rec.count("traced.images_not_explored(cap)");
+                continue;
+            }
+            n_images += 1;
+            if fs.materialize(&img, model_b).is_err() {
+                rec.count("traced.materialize_failed");
+                continue;
+            }
+            let itag = format!("{} crash-before-call {} ({}) model {}", tag, p, next_call, if model_b { "b" } else { "a" });
+            let di = abs_dir(&img);
+            if !model_b && states_a.last() != Some(&di.state()) {
+                states_a.push(di.state());
+            }
+            // the crash state itself obeys the protocol (log before unlink)
+            let bad = if di.unreadable { vec!["verify/MANIFEST or a fragment unreadable in the image".to_string()] } else { protocol_complaints(&d0, &di) };
+            let v = if bad.is_empty() { Verdict::Ok } else { Verdict::Fail { class: fail_class(taint, "verifier-removed-unlogged-or-needed-file"), detail: format!("{} {}", itag, bad.join("; ")) } };
+            rec.count(if model_b { "traced.images.model_b" } else { "traced.images.model_a" });
+            rec.case(&format!("# {} image", itag), "#", tainted(v, taint), Some(fnv(format!("{}:{}:{}", tag, model_b, h).as_bytes())));
+            // restart: the real verifier on the image against the model's pass from that state
+            let (_b, _a, st) = pass_on_image(rec, &format!("{} restart", itag), &img, cfg, taint);
+            rec.count(&format!("traced.restart.{}", status_token(&st).split(':').next().unwrap_or("")));
+            // then the real store: reopen (clean-up compared with the model) and read back
+            reopen_image(rec, &itag, &img, cfg, keys, expect, taint);
+        }
+    }
+    if !capped {
+        let req = format!("vfy prefixes {}", d0.request());
+        rec.count("traced.prefix_sequences");
+        rec.corr(&req, &states_a.join(" | "), if states_a.len() >= 3 { Some(fnv(req.as_bytes())) } else { None });
+    }
+    cleanup(&work);
+}
+
 pub fn run(args: &Args) {
     let mut rec = Recorder::new(&args.out, args.only_case);
     let (nh, len) = if args.thorough { (300, 100) } else { (80, 60) };
+    let have_strace = std::process::Command::new("strace").arg("-V").output().map(|o| o.status.success()).unwrap_or(false);
+    if !have_strace {
+        rec.case("# strace unavailable", "#", Verdict::Fail { class: "machinery".into(), detail: "strace not found".into() }, None);
+    }
+    let mut budget = if !have_strace { TraceBudget { passes: 0, images_per_pass: 0 } } else if args.thorough { TraceBudget { passes: 120, images_per_pass: 400 } } else { TraceBudget { passes: 10, images_per_pass: 160 } };
+    // debugging aid: BLUE_C08_ONLY=<history index> runs that history alone
+    let only: Option<u64> = std::env::var("BLUE_C08_ONLY").ok().and_then(|x| x.parse().ok());
+    if only.is_none() {
+        pinned_output_case(&mut rec);
+    }
+    if have_strace && only.is_none() {
+        directed(&mut rec, args.seed, &mut budget);
+    }
     for h in 0..nh {
+        if only.map(|o| o != h).unwrap_or(false) {
+            continue;
+        }
         let nkeys = if h % 3 == 0 { 4 } else if h % 3 == 1 { 7 } else { 12 };
-        run_history(&mut rec, args.seed, h, len, nkeys);
+        run_history(&mut rec, args.seed, h, len, nkeys, &mut budget);
     }
     rec.finish(
-        "store histories as in C01 with verifier passes (about one op in ten) and reopens; after every op the directory listing is checked against the current version; every verifier pass is followed by a reopen and a full read-back; per store incarnation the sequence of installed versions is replayed through the reference-counting model; non-trivial = an incarnation with >= 3 version installs; distinct by request",
+        "store histories as in C01 with verifier passes (about one op in ten, some twice in a row), reopens (a third of them under other options) and directed images; after every op the directory listing is checked against the current version; every verifier pass and every reopen is compared with the verifier / orphan clean-up model on the dumped directory (names, every fragment's edits, verify/ manifest) and followed by a reopen and a full read-back; traced passes (strace, child on a copy): action order, the directory after every prefix of the system calls, every distinct crash image (completed calls persist / unsynced bytes lost) restarted with the real verifier, reopened and read back; per store incarnation the sequence of installed versions is replayed through the reference-counting model; non-trivial = an incarnation with >= 3 version installs, a pass that unlinks a fragment / backs off / finds a pending intent, a reopen that moves an orphan, a traced pass with >= 3 actions, every distinct crash image; distinct by request",
         &[],
     );
+}
+
+/// Directed schedule: a reader's snapshot pins a file X that a compaction has already removed from
+/// the manifest (a key inside X's range was inserted); the key is deleted again and a later garbage
+/// collection writes what X held — an output of the same name, for which `hard_link` answers
+/// AlreadyExists (accepted by `compaction_finish`); the reader lets go of its snapshot between that
+/// link and the manifest edit (at the `compaction.before_manifest` hook).
+///  * oracle: afterwards every file the manifest lists is in sst/, the store reopens and reads back;
+///  * correspondence: `flink` (`Blue.FileLink`): per-file reference counts, sst/ and trash/ under
+///    the link / reference / release events of that compaction, in the protocol the code under test
+///    shows on this input (`asis`: the link takes no reference; `pin`: it does).
+fn pinned_output_case(rec: &mut Recorder) {
+    use std::ops::Bound;
+    let debug = std::env::var("BLUE_DEBUG").is_ok();
+    let class = "snapshot-released-between-output-link-and-install";
+    let cfg = Cfg { memtable_bytes: 1 << 20, target_file: 1 << 22, min_file: 64, target_block: 256, l0_mandatory_files: 1, l0_stall_files: 12, max_compaction_files: 16, gc_versions: 1, mani_ratio: 10 };
+    let root = scratch_dir("c08.pinned");
+    let mut sim = match Sim::open(&root, &cfg) {
+        Ok(s) => s,
+        Err(_) => return,
+    };
+    let listed_now = |sim: &Sim| -> Vec<String> { sim.kvs().verif_tree().verif_manifest().0.iter().map(|x| sh(x)).collect() };
+    let dirs_now = |sim: &Sim| -> (Vec<String>, Vec<String>) {
+        let l = sim.listing();
+        (l["sst"].iter().filter_map(|x| x.strip_suffix(".sst").map(|y| sh(y))).collect(), l["trash"].iter().filter_map(|x| x.strip_suffix(".sst").map(|y| sh(y))).collect())
+    };
+    let okc = std::cell::Cell::new(true);
+    let go = |sim: &mut Sim, ops: &[Op]| {
+        for op in ops {
+            if sim.apply(op).is_err() {
+                okc.set(false);
+            }
+        }
+    };
+    go(&mut sim, &[Op::Put(b"b".to_vec(), b"v1".to_vec()), Op::Put(b"d".to_vec(), b"v2".to_vec()), Op::Flush]);
+    go(&mut sim, &vec![Op::Compact(1); 20]);
+    let x_name = listed_now(&sim).first().cloned().unwrap_or_default();
+    // the reader: a scan opened now keeps the version that holds X referenced
+    let cursor = match sim.kvs().range_scan::<&[u8]>(&Bound::Unbounded, &Bound::Unbounded) {
+        Ok(c) => c,
+        Err(_) => return,
+    };
+    let cursor: Box<dyn sst::Cursor + '_> = Box::new(cursor);
+    // SAFETY: the cursor is dropped (inside the hook below, or right after the loop) before `sim`
+    let cursor: Box<dyn sst::Cursor + 'static> = unsafe { std::mem::transmute(cursor) };
+    let held = std::rc::Rc::new(std::cell::RefCell::new(Some(cursor)));
+    go(&mut sim, &[Op::Put(b"c".to_vec(), b"v3".to_vec()), Op::Flush]);
+    go(&mut sim, &vec![Op::Compact(1); 20]);
+    go(&mut sim, &[Op::Put(b"c".to_vec(), b"v4".to_vec()), Op::Flush]);
+    for _ in 0..60 {
+        go(&mut sim, &[Op::Compact(1)]);
+        if !listed_now(&sim).contains(&x_name) {
+            break;
+        }
+    }
+    go(&mut sim, &[Op::Del(b"c".to_vec()), Op::Flush]);
+    go(&mut sim, &vec![Op::Compact(1); 20]);
+    go(&mut sim, &[Op::Del(b"c".to_vec()), Op::Flush]);
+    let pinned_unlisted = !listed_now(&sim).contains(&x_name) && dirs_now(&sim).0.contains(&x_name);
+    let mut released = false;
+    let mut before = (listed_now(&sim), dirs_now(&sim));
+    if okc.get() && pinned_unlisted {
+        let flag = std::rc::Rc::new(std::cell::Cell::new(false));
+        for step in 0..200u64 {
+            if step > 0 && step % 40 == 0 {
+                // another tombstone on top of the stack (a level is merged into the next when a
+                // third file sits on the two)
+                go(&mut sim, &[Op::Del(b"c".to_vec()), Op::Flush]);
+            }
+            before = (listed_now(&sim), dirs_now(&sim));
+            let h = held.clone();
+            let f = flag.clone();
+            lsmtk::verif::set_single_step(Some(1));
+            lsmtk::verif::set_probe(Some(Box::new(move |tag: &'static str| {
+                if tag == "compaction.before_manifest" && h.borrow().is_some() {
+                    // the outputs are linked into sst/, the manifest edit is not written yet
+                    *h.borrow_mut() = None;
+                    f.set(true);
+                }
+            })));
+            let res = sim.kvs().compaction_thread();
+            lsmtk::verif::set_probe(None);
+            lsmtk::verif::set_single_step(None);
+            let _ = lsmtk::verif::take_chosen();
+            if res.is_err() {
+                okc.set(false);
+                break;
+            }
+            if flag.get() {
+                released = true;
+                break;
+            }
+        }
+    }
+    *held.borrow_mut() = None;
+    if !(okc.get() && pinned_unlisted && released) {
+        rec.count("pinned_output.schedule_not_reached");
+        sim.close();
+        return;
+    }
+    rec.count("pinned_output.schedules");
+    let after = (listed_now(&sim), dirs_now(&sim));
+    let (w0, w1) = (&before.0, &after.0);
+    let outputs: Vec<&String> = w1.iter().filter(|f| !w0.contains(f)).collect();
+    let missing: Vec<&String> = w1.iter().filter(|f| !after.1 .0.contains(f)).collect();
+    let protocol = if missing.is_empty() { "pin" } else { "asis" };
+    rec.count(&format!("pinned_output.protocol_{}", protocol));
+    // the events of that compaction, file by file
+    let mut evs: Vec<String> = outputs.iter().map(|o| format!("L:{}", o)).collect();
+    evs.push(format!("U:{}", x_name)); // the reader lets go of the version that held X
+    evs.extend(w1.iter().map(|f| format!("R:{}", f))); // explicit_ref of the new version
+    evs.extend(w0.iter().map(|f| format!("U:{}", f))); // explicit_unref of the replaced one
+    if protocol == "pin" {
+        evs.extend(outputs.iter().map(|o| format!("U:{}", o)));
+    }
+    let mut refs0: Vec<String> = w0.iter().map(|f| format!("{}:1", f)).collect();
+    refs0.push(format!("{}:1", x_name));
+    let req = format!("flink {} refs={} sst={} trash={} :: {}", protocol, refs0.join(","), sorted_plus(before.1 .0.iter()), sorted_plus(before.1 .1.iter()), evs.join(" "));
+    let obs = format!("sst={} trash={}", sorted_plus(after.1 .0.iter()), sorted_plus(after.1 .1.iter()));
+    if debug {
+        eprintln!("pinned: X={} before listed={:?} sst={:?}; after listed={:?} sst={:?} trash={:?}", x_name, before.0, before.1 .0, after.0, after.1 .0, after.1 .1);
+    }
+    let mut bad: Vec<String> = missing.iter().map(|f| format!("the manifest lists {} and it is not in sst/", f)).collect();
+    // the store must reopen and hold what was written
+    match sim.apply(&Op::Reopen) {
+        Err(e) => bad.push(format!("reopen failed: {}", e.chars().take(160).collect::<String>())),
+        Ok(()) => {
+            for (k, want) in [(b"b".to_vec(), Some(b"v1".to_vec())), (b"c".to_vec(), None), (b"d".to_vec(), Some(b"v2".to_vec()))] {
+                match sim.get(&k) {
+                    Ok(got) if got == want => {}
+                    other => bad.push(format!("key {} reads {:?}", hex(&k), other)),
+                }
+            }
+        }
+    }
+    let v = if bad.is_empty() { Verdict::Ok } else { Verdict::Fail { class: class.into(), detail: format!("put b,d; flush; SCAN OPENED; put c; flush; put c; flush; compactions (X={} leaves the manifest, stays in sst/); del c; flush; del c; flush; compactions, the scan dropped at compaction.before_manifest of the one whose output is X: {}", x_name, bad.join("; ")) } };
+    rec.case(&req, &obs, v, Some(fnv(req.as_bytes())));
+    if sim.kvs.is_some() {
+        sim.close();
+    } else {
+        let _ = std::fs::remove_dir_all(&root);
+    }
 }
